@@ -707,6 +707,138 @@ pub fn check_history(h: &History, obs: &mut Obs) -> Result<(), Fail> {
 }
 
 // ------------------------------------------------------------------------------------------------
+// renderer histories: ONE SvgBuilder and ONE ImageBuilder instance used for several QR codes with setter calls
+// in between; after every render the output must equal that of a fresh renderer given the same setter calls
+
+#[derive(Clone, Debug)]
+pub enum ROp {
+    Set(SvgOp),
+    Svg(usize),
+    Png(usize),
+}
+
+#[derive(Clone, Debug)]
+pub struct RHistory {
+    pub qrs: Vec<BuildCase>,
+    pub ops: Vec<ROp>,
+}
+
+pub fn rhist_json(h: &RHistory) -> Value {
+    json!({"kind": "renderer_history", "qrs": h.qrs.iter().map(|b| b.to_json()).collect::<Vec<_>>(),
+           "ops": h.ops.iter().map(|o| match o { ROp::Set(s) => json!({"set": svg_op_json(s)}), ROp::Svg(i) => json!({"svg": i}), ROp::Png(i) => json!({"png": i}) }).collect::<Vec<_>>()})
+}
+
+fn rhist_from(v: &Value) -> Option<RHistory> {
+    let qrs = v.get("qrs")?.as_array()?.iter().filter_map(BuildCase::from_json).collect();
+    let ops = v.get("ops")?.as_array()?.iter().filter_map(|o| {
+        if let Some(s) = o.get("set") { return Some(ROp::Set(svg_op_from(s)?)); }
+        if let Some(i) = o.get("svg").and_then(|x| x.as_u64()) { return Some(ROp::Svg(i as usize)); }
+        o.get("png").and_then(|x| x.as_u64()).map(|i| ROp::Png(i as usize))
+    }).collect();
+    Some(RHistory { qrs, ops })
+}
+
+pub fn check_rhistory(h: &RHistory, obs: &mut Obs) -> Result<(), Fail> {
+    let mut built: Vec<Option<Box<QRCode>>> = Vec::new();
+    for bc in &h.qrs {
+        built.push(catch(|| bc.builder().build().ok().map(Box::new)).ok().flatten());
+    }
+    let mut psvg = SvgBuilder::default();
+    let mut ppng = ImageBuilder::default();
+    let mut prog: Vec<SvgOp> = Vec::new();
+    let mut prog_png: Vec<SvgOp> = Vec::new();
+    let mut renders = 0u64;
+    let mut sizes = std::collections::BTreeSet::new();
+    for (i, op) in h.ops.iter().enumerate() {
+        match op {
+            ROp::Set(o) => {
+                pc("SvgBuilder setter", || apply_svg_op(&mut psvg, o))?;
+                prog.push(o.clone());
+                if png_safe(o) {
+                    pc("ImageBuilder setter", || apply_svg_op(&mut ppng, o))?;
+                    prog_png.push(o.clone());
+                }
+            }
+            ROp::Svg(k) => {
+                let Some(Some(q)) = built.get(*k) else { continue };
+                renders += 1;
+                sizes.insert(q.size);
+                let s1 = pc("SvgBuilder::to_str", || psvg.to_str(q))?;
+                let fresh = pc("SvgBuilder", || {
+                    let mut b = SvgBuilder::default();
+                    for o in &prog {
+                        apply_svg_op(&mut b, o);
+                    }
+                    b.to_str(q)
+                })?;
+                ensure!(
+                    s1 == fresh,
+                    "renderer_history_dependent:svg",
+                    "op {}: the long-lived SvgBuilder (render #{}) gives {} bytes for QR #{} (size {}), a fresh SvgBuilder with the same setter calls gives {} bytes (history {})",
+                    i, renders, s1.len(), k, q.size, fresh.len(), rhist_json(h)
+                );
+                if (hash_bytes(&h.qrs[*k].input) + renders) % 16 == 0 {
+                    if cold_render_verdict(&h.qrs[*k], "svg", &prog, hash_bytes(s1.as_bytes()), &format!("op {}", i))? {
+                        obs.label("cold_process_consulted:render");
+                    }
+                }
+            }
+            ROp::Png(k) => {
+                let Some(Some(q)) = built.get(*k) else { continue };
+                renders += 1;
+                sizes.insert(q.size);
+                let p1 = pc("ImageBuilder::to_bytes", || ppng.to_bytes(q).map_err(|e| e.to_string()))?;
+                let fresh = pc("ImageBuilder", || {
+                    let mut b = ImageBuilder::default();
+                    for o in &prog_png {
+                        apply_svg_op(&mut b, o);
+                    }
+                    b.to_bytes(q).map_err(|e| e.to_string())
+                })?;
+                ensure!(
+                    p1 == fresh,
+                    "renderer_history_dependent:png",
+                    "op {}: the long-lived ImageBuilder (render #{}) and a fresh ImageBuilder with the same setter calls give different PNGs for QR #{} (history {})",
+                    i, renders, k, rhist_json(h)
+                );
+            }
+        }
+    }
+    obs.label(&format!("renders:{}", renders.min(6)));
+    if renders >= 2 && sizes.len() >= 2 {
+        obs.label("renderer_reused_across_sizes");
+        obs.nontrivial(crate::engine::hash_value(&rhist_json(h)));
+    }
+    obs.sample(&format!("renderer_history|{}", renders.min(3)), || rhist_json(h));
+    Ok(())
+}
+
+pub fn rhistory_strategy() -> BoxedStrategy<RHistory> {
+    let qr = (1usize..=5, 0usize..4, prop_oneof![Just(None), (0u8..8).prop_map(Some)]).prop_flat_map(|(v, li, mask)| {
+        let cell = crate::gens::Cell { version: v, level: Level::from_index(li), mode: Mode::Byte };
+        crate::gens::case_in_cell(cell, crate::gens::Force { mode: false, level: true, version: true }, mask).prop_map(|(c, _)| c)
+    });
+    vec(qr, 2..5)
+        .prop_flat_map(|qrs| {
+            let k = qrs.len();
+            let op = prop_oneof![
+                4 => p_op().prop_map(ROp::Set),
+                5 => (0..k).prop_map(ROp::Svg),
+                1 => (0..k).prop_map(ROp::Png),
+            ];
+            // most histories start by configuring an embedded image (the part of the output that depends on both
+            // margin and symbol size)
+            (any::<bool>(), vec(op, 2..14)).prop_map(move |(img, mut ops)| {
+                if img {
+                    ops.insert(0, ROp::Set(SvgOp::Image("logo.png".to_string())));
+                }
+                RHistory { qrs: qrs.clone(), ops }
+            })
+        })
+        .boxed()
+}
+
+// ------------------------------------------------------------------------------------------------
 // concurrency
 
 #[derive(Clone, Debug)]
@@ -848,6 +980,9 @@ pub fn replay(_e: &Engine, case: &Value, obs: &mut Obs) -> Result<(), Fail> {
             check_round(&r, obs)?;
         }
         return Ok(());
+    }
+    if case.get("kind").and_then(|k| k.as_str()) == Some("renderer_history") {
+        return check_rhistory(&rhist_from(case).ok_or_else(bad)?, obs);
     }
     let input = case["input_hex"].as_str().and_then(unhex).ok_or_else(bad)?;
     let ops: Vec<Op> = case["ops"].as_array().ok_or_else(bad)?.iter().filter_map(op_from).collect();
@@ -1030,6 +1165,18 @@ pub fn run(e: &'static Engine) {
             jc.run_prop(1 << 20, &strat, total / shards, hist_json, |h, o| {
                 o.label("part:histories");
                 check_history(h, o)
+            });
+        }));
+    }
+    e.par(jobs);
+    let total: u32 = e.tier.pick(1920, 38400);
+    let mut jobs: Vec<Job> = Vec::new();
+    for _ in 0..shards {
+        jobs.push(Box::new(move |jc: &mut JobCtx| {
+            let strat = rhistory_strategy();
+            jc.run_prop(4 << 20, &strat, total / shards, rhist_json, |h, o| {
+                o.label("part:renderer_histories");
+                check_rhistory(h, o)
             });
         }));
     }
